@@ -62,12 +62,18 @@ structure SepSt where
   round : Int := 0
   square : Int := 0
   quotes : Nat := 0
+  deriving DecidableEq
+
+/-- `i + 1 < length && chrs[i + 1]` is a digit -/
+def nextIsDigit : Text → Bool
+  | d :: _ => isDigit d
+  | [] => false
 
 def sepLoop : Text → SepSt → SepSt
   | [], st => st
   | ch :: rest, st =>
     let cur := st.cur ++ [ch]
-    let decimalPoint := ch == '.' && (match rest with | d :: _ => isDigit d | [] => false)
+    let decimalPoint := ch == '.' && nextIsDigit rest
     if ch == '.' && !decimalPoint && st.round == 0 && st.square == 0 && st.quotes % 2 == 0 then
       sepLoop rest { st with cur := [], rules := st.rules ++ [cur] }
     else if ch == '(' then sepLoop rest { st with cur := cur, round := st.round + 1 }
